@@ -24,6 +24,8 @@ pub enum Rule {
     Value,
     Help,
     Version,
+    /// a `required(true)` argument of a level does not occur there
+    Missing,
 }
 
 #[derive(Clone, Copy, Debug, PartialEq, Eq)]
@@ -504,6 +506,9 @@ fn read_level(
             }
         }
         if t == b"--" {
+            if c.has(Setting::AllowMissingPositional) {
+                *unspec = Some("allow_missing_positional combined with `--`");
+            }
             trailing = true;
             pos_run = None;
             lv.escape_at = Some(i);
@@ -707,6 +712,24 @@ fn read_level(
                 }
             }
         }
+        if c.has(Setting::AllowMissingPositional) && positionals.len() == 2 && pos_i == 0 && !is_multi(positionals[0]) && !is_multi(positionals[1]) {
+            // documented: `prog [optional] <required>` may be called as `prog <required>`: a single
+            // positional value goes to the last positional. Only contiguous values are pinned.
+            let next_plain = argv.get(i + 1).map(|n| {
+                !flag_shaped(n) && n != b"--" && !std::str::from_utf8(n).map(|s| !matches!(find_sub(c, &inh, s), SubFound::None)).unwrap_or(false)
+            });
+            match next_plain {
+                Some(true) => {}
+                _ => {
+                    if lv.occs.iter().any(|o| o.how == How::Pos) {
+                        *unspec = Some("allow_missing_positional with non-contiguous positional values");
+                    }
+                    pos_i = 1;
+                }
+            }
+        } else if c.has(Setting::AllowMissingPositional) && lv.occs.iter().any(|o| o.how == How::Pos && o.at + 1 != i) {
+            *unspec = Some("allow_missing_positional with non-contiguous positional values");
+        }
         place_positional(c, &positionals, &mut pos_i, &mut pos_run, &mut lv, t, i, false, has_last, broken, unspec);
         i += 1;
     }
@@ -768,6 +791,11 @@ fn all_args<'a>(c: &'a CmdSpec) -> impl Iterator<Item = &'a ArgSpec> {
 }
 
 fn finish_level(c: &CmdSpec, inh: &Inherited, lv: &mut Level, broken: &mut BTreeSet<Rule>) {
+    for a in &c.args {
+        if a.required && !lv.occs.iter().any(|o| o.id == a.id) && !(c.has(Setting::SubcommandNegatesReqs) && lv.sub.is_some()) {
+            broken.insert(Rule::Missing);
+        }
+    }
     // value counts, delimiter splitting, value language, repeats
     let mut seen: Vec<String> = vec![];
     for o in lv.occs.iter_mut() {
